@@ -1,5 +1,4 @@
 import json
-from json.decoder import JSONDecodeError
 from typing import Union, Optional, List
 
 
@@ -34,7 +33,7 @@ def parse_registration_options_json(
     if isinstance(json_val, str):
         try:
             json_val = json.loads(json_val)
-        except JSONDecodeError:
+        except ValueError:  # JSONDecodeError, or the int digit limit on huge literals
             raise InvalidJSONStructure("Unable to decode options as JSON")
 
     if not isinstance(json_val, dict):
